@@ -1038,3 +1038,52 @@ def run_wild_first(chk, model, n):
     if model:
         outs = model.call(reqs)
         chk.correspond("WILDCARD-FIRST", desc, impl, outs)
+
+
+# --------------------------------------------------------------------------
+# an unbound variable needs at least one character ("nothing but complete paths match")
+# --------------------------------------------------------------------------
+UNBOUND_SHAPES = ["l/{locale}/b", "{v}", "{d}/{f}", "a-{v}.ftl", "{base}/{locale}/x.ftl", "res/values-{v}/s.xml",
+                  "{v}/", "/{v}", "x{v}y{w}z", "{bound}/{v}/f"]
+
+
+def run_unbound_empty(chk, model, n):
+    """patterns of literals, bound variables and UNBOUND variables (no wildcards): a path in
+    which some unbound variable's piece is empty has fewer characters than any match needs"""
+    rng = chk.rng
+    reqs, impl, desc = [], [], []
+    for i in range(n):
+        pat = UNBOUND_SHAPES[i] if i < len(UNBOUND_SHAPES) else rng.choice(UNBOUND_SHAPES)
+        if i >= len(UNBOUND_SHAPES) and rng.random() < 0.4:
+            pat = rng.choice(["pre/", "", "a."]) + pat + rng.choice(["", "/post", ".x"])
+        env = [("bound", "bb")]
+        names = []
+        for m in _VAR.finditer(pat):
+            if m.group(1) != "bound" and m.group(1) not in names:
+                names.append(m.group(1))
+        empty = set(rng.sample(names, rng.randint(1, len(names)))) if names else set()
+        side = (pat, env, None)
+        sx = side_sx(side)
+
+        def fill(empties):
+            t = pat.replace("{bound}", "bb")
+            for nm in names:
+                t = t.replace("{%s}" % nm, "" if nm in empties else rng.choice(["de", "q", "a-b"]))
+            return t
+        for kind, path in (("all-filled", fill(set())), ("empty-piece", fill(empty))):
+            if kind == "empty-piece" and not empty:
+                continue
+            chk.count(("unbound", side, path))
+            chk.hist("unbound_empty", kind)
+            got = impl_match(side, path)
+            desc.append((kind, side, path))
+            impl.append(got)
+            reqs.append((2, sx + [canon(path)]))
+            if kind == "all-filled" and not (got[0] == 0 and got[1]) and len(set(names)) == len(names):
+                chk.fail("unbound-variable-filled-path-not-matched", {"side": side, "path": path}, {"got": got})
+            if kind == "empty-piece" and got[0] == 0 and got[1]:
+                chk.fail("unbound-variable-matched-empty", {"side": side, "path": path,
+                                                           "empty": sorted(empty)}, {"got": mk(side).match(path)})
+    if model:
+        outs = model.call(reqs)
+        chk.correspond("UNBOUND-EMPTY", desc, impl, outs)
